@@ -184,7 +184,7 @@ def diagonalize_form(bilinear_form,
 
             order = np.argsort(sort_indices, axis=-1)
         if reverse:
-            order = np.flip(order)
+            order = np.flip(order, axis=-1)
 
         W = permute_along_axis(W, order, axis=-1, inverse=True)
 
